@@ -232,6 +232,79 @@ func Corruptions(spec *Spec, valid any) []Corruption {
 						}
 						out = append(out, Corruption{Value: rebuild(n), Path: cp(path, name), Kind: "missing required"})
 					}
+					// required_if: the property removed while a property it depends on stays - the property is what is missing
+					// (only if no other rule names it, so that nothing else becomes invalid)
+					if len(p.RequiredIf) > 0 && p.Default == nil && !p.Required {
+						triggered := false
+						for _, r := range p.RequiredIf {
+							if _, has := m[r]; has {
+								triggered = true
+							}
+						}
+						clean := true
+						for j := range s.Props {
+							for _, r := range s.Props[j].RequiredIfNot {
+								if r == name {
+									clean = false
+								}
+							}
+						}
+						if triggered && clean {
+							n := map[string]any{}
+							for a, b := range m {
+								if a != name {
+									n[a] = b
+								}
+							}
+							out = append(out, Corruption{Value: rebuild(n), Path: cp(path, name), Kind: "missing required-if"})
+						}
+					}
+					// conflicts: a property this one conflicts with is added (with a valid value); the error may name either
+					// of the two. Only if the added property upsets nothing else.
+					for _, other := range p.Conflicts {
+						q := s.Prop(other)
+						if q == nil || q.Disabled {
+							continue
+						}
+						if _, has := m[other]; has {
+							continue
+						}
+						vals := ValidValues(q.Type, 1)
+						if len(vals) == 0 {
+							continue
+						}
+						clean := true
+						for j := range s.Props {
+							r := &s.Props[j]
+							if r.Name == name || r.Name == other {
+								continue
+							}
+							_, rSet := m[r.Name]
+							for _, c := range r.Conflicts {
+								if c == other && rSet {
+									clean = false
+								}
+							}
+							for _, c := range q.Conflicts {
+								if c == r.Name && rSet {
+									clean = false
+								}
+							}
+							for _, c := range r.RequiredIf {
+								if c == other && !rSet && r.Default == nil {
+									clean = false
+								}
+							}
+						}
+						if clean {
+							n := map[string]any{}
+							for a, b := range m {
+								n[a] = b
+							}
+							n[other] = vals[0]
+							out = append(out, Corruption{Value: rebuild(n), Path: cp(path, name), Alt: cp(path, other), Kind: "conflicting property"})
+						}
+					}
 					// required_if_not: the property and every alternative removed - the property is what is missing.
 					// (Only if nothing else then becomes invalid: no other property's rule may name what was removed.)
 					if len(p.RequiredIfNot) > 0 && p.Default == nil {
